@@ -1,27 +1,56 @@
-"""C01 - space packet primary header (engine V).  DESIGN.md section 4, C01."""
+"""C01 - space packet primary header (engines V + H).  DESIGN.md section 4, C01.
+
+Three sub-spaces, each enumerated completely:
+  sweep/edge  every header value of the stated alphabets through a fixed script (construct, pack, unpack from
+              three input forms, re-pack, compare, words, helpers), with the independence oracle (mc.alias.Keeper)
+              holding every object and every pack() output the library handed out and re-observing it after the
+              next case; the edge product additionally runs the sibling-mutation script (same-valued objects made
+              before / after one of them is mutated must not influence each other);
+  range       every out-of-range value of each validated field through every constructor taking the field, crossed
+              with the other arguments of that constructor (packet type x flag, all four sequence flags, low/high
+              backgrounds);
+  hist        engine H, stateless: every sequence up to depth D over {every assignable attribute of
+              SpacePacketHeader (through the header and through its packet_id / packet_seq_control words) x value
+              alphabet, every read / pack-like observer}, from every start kind (constructed, unpacked from bytes,
+              unpacked from a bytearray that is overwritten afterwards, from_composite_fields) x base header;
+              compared with the reference encoding of a plain tuple of last-set values.
+"""
 
 from __future__ import annotations
 
 import itertools
 
 from mc import domains as D
+from mc.alias import Keeper
 from mc.rec import Rec
 from ref import ccsds as R
 
 PROPERTY = "C01"
-LEVEL = "model_checking"  # bounded-exhaustive enumeration of executions against a reference model (DESIGN.md 1, 2.1)
+LEVEL = "model_checking"  # bounded-exhaustive enumeration of executions against a reference model (DESIGN.md 1, 2.1, 2.3)
 EXHAUSTIVE = True
 RULE = (
     "header = three 16-bit words; each word swept over all 65536 values in K^2 backgrounds of the other two "
     "(K=4 quick, 8 thorough), plus the full product of the edge alphabets of the seven fields, plus every "
     "out-of-range APID / sequence count / data length in [-N,-1] U [max+1,max+N] and +-2^k through every "
-    "constructor taking the field. A case is counted as distinct non-trivial when no earlier sweep of the "
-    "enumeration produced the same (w0,w1,w2) / (constructor,value)."
+    "constructor taking the field in every context of its other arguments (type x flag, four sequence flags, "
+    "low/high background), plus every event history of length <= D over the menu {assignment of each settable "
+    "header attribute (directly and through packet_id / packet_seq_control) x value alphabet, observers pack / "
+    "packet_len / == / raw words / SpacePacket.pack / repr} from each (start kind, base header), checked against "
+    "the reference encoding of the last-set values at every observer event and at the end of the history. "
+    "Every object and pack() output handed out by the library is held and re-observed after the next case "
+    "(independence). A case is counted as distinct non-trivial when no earlier sweep of the enumeration "
+    "produced the same (w0,w1,w2) / (constructor,context,value) / (start,base,event sequence)."
 )
-BOUNDS = {"quick": "K=4, N=4096", "thorough": "K=8, N=65536"}
+BOUNDS = {
+    "quick": "K=4, N=4096, histories D=3 over a menu of 38 events, 4 start kinds x 3 base headers",
+    "thorough": "K=8, N=65536, histories D=4 over a menu of 43 events, 4 start kinds x 3 base headers",
+}
 ASSUMPTIONS = [
     "reference encoder ref/ccsds.py transcribes CCSDS 133.0-B-2 4.1.3 (checked against the repository's expected vectors in selftest)",
     "two arbitrary non-background values in two different words at once are only covered by the edge product",
+    "setters are exercised with in-range values only (the property demands refusal from the constructors, the tree's setters do not validate)",
+    "a result is re-observed after the next one or two cases of the fixed enumeration order, not after every later case",
+    "a mutation through header.packet_id / header.packet_seq_control is expected to show in pack() only as far as the header's own getter reports it",
 ]
 
 
@@ -33,42 +62,113 @@ def _n(tier):
     return 4096 if tier == "quick" else 65536
 
 
-def shards(tier):
-    items = []
-    for word in range(3):
-        for part in range(8 if tier == "quick" else 16):
-            items.append({"kind": "sweep", "word": word, "part": part, "parts": 8 if tier == "quick" else 16, "k": _k(tier)})
-    items.append({"kind": "edge", "k": _k(tier)})
-    for field in ("apid", "seq_count", "data_len"):
-        items.append({"kind": "range", "field": field, "n": _n(tier)})
-    return items
-
-
 def _sp():
     import spacepackets.ccsds.spacepacket as sp
 
     return sp
 
 
-def check_header(rec: Rec, w0, w1, w2, nontrivial=True):
+# ------------------------------------------------------------------------------- observation functions (copying)
+def hdr_obs(h):
+    return (h.ccsds_version, int(h.packet_type), int(h.sec_header_flag), h.apid, int(h.seq_flags), h.seq_count,
+            h.data_len, h.packet_len, bytes(h.pack()))
+
+
+def pid_obs(p):
+    return (int(p.ptype), int(p.sec_header_flag), p.apid, p.raw())
+
+
+def psc_obs(q):
+    return (int(q.seq_flags), q.seq_count, q.raw())
+
+
+def buf_obs(b):
+    return bytes(b)
+
+
+def hdr_exp(f):
+    ver, typ, shf, apid, fl, cnt, dl = f
+    return (ver, typ, shf, apid, fl, cnt, dl, dl + 7, R.sp_header(*f))
+
+
+def _mk_header(sp, f):
+    ver, typ, shf, apid, fl, cnt, dl = f
+    return sp.SpacePacketHeader(sp.PacketType(typ), apid, cnt, dl, bool(shf), sp.SequenceFlags(fl), ver)
+
+
+def _mutate_header(sp, h, f):
+    """every assignable attribute gets the complement of its value"""
+    ver, typ, shf, apid, fl, cnt, dl = f
+    h.packet_type = sp.PacketType(1 - typ)
+    h.sec_header_flag = not shf
+    h.apid = apid ^ 0x7FF
+    h.seq_flags = sp.SequenceFlags(fl ^ 3)
+    h.seq_count = cnt ^ 0x3FFF
+    h.data_len = dl ^ 0xFFFF
+
+
+def _mutate_pid(sp, p, f):
+    p.ptype = sp.PacketType(1 - f[1])
+    p.sec_header_flag = not f[2]
+    p.apid = f[3] ^ 0x7FF
+
+
+def _mutate_psc(sp, q, f):
+    q.seq_flags = sp.SequenceFlags(f[4] ^ 3)
+    q.seq_count = f[5] ^ 0x3FFF
+
+
+# --------------------------------------------------------------------------------------------- sweep / edge script
+class Ctx:
+    """per-shard context of the header script: the Keeper and the previous case's objects (inequality oracle)"""
+
+    def __init__(self, rec, depth=10):
+        self.keeper = Keeper(rec, PROPERTY, depth=depth)
+        self.prev = None
+        self.pending = []
+
+    def hold(self, subject, obj, observe, case):
+        self.pending.append((subject, obj, observe, case))
+
+    def end_of_case(self, case):
+        """re-observe what the PREVIOUS case was handed (after all library calls of this one), then take over
+        this case's results; the ring holds exactly one case's worth"""
+        self.keeper.recheck(case)
+        for ent in self.pending:
+            self.keeper.hold(*ent)
+        self.pending = []
+
+
+def check_header(rec: Rec, w0, w1, w2, nontrivial=True, ctx=None, deep=False):
+    ctx = ctx or Ctx(rec)
+    case = {"kind": "hdr", "w": [w0, w1, w2], "deep": bool(deep)}
+    rec.case(nontrivial, ops=22 + (27 if deep else 0))
+    _header_script(rec, case, w0, w1, w2, ctx, deep)
+    ctx.end_of_case(case)
+
+
+def _header_script(rec, case, w0, w1, w2, ctx, deep):
     sp = _sp()
-    ver, typ, shf, apid, fl, cnt, dl = R.words_to_fields(w0, w1, w2)
-    ref = R.sp_header(ver, typ, shf, apid, fl, cnt, dl)
-    case = {"kind": "hdr", "w": [w0, w1, w2]}
-    rec.case(nontrivial, ops=14)
+    keep = ctx
+    f = R.words_to_fields(w0, w1, w2)
+    ver, typ, shf, apid, fl, cnt, dl = f
+    ref = R.sp_header(*f)
 
     def bad(kind, observed, expected):
-        feats = "/".join(f for f, on in (("ver!=0", ver != 0), ("apid>=0x400", apid >= 0x400), ("cnt>=0x2000", cnt >= 0x2000)) if on)
+        feats = "/".join(x for x, on in (("ver!=0", ver != 0), ("apid>=0x400", apid >= 0x400), ("cnt>=0x2000", cnt >= 0x2000)) if on)
         rec.violation(f"C01.{kind}" + ("/" + feats if feats else ""), case, observed, expected,
-                      repro=f"w0,w1,w2={w0:#x},{w1:#x},{w2:#x}  # see checks/c01.py check_header")
+                      repro=f"w0,w1,w2={w0:#x},{w1:#x},{w2:#x}  # see checks/c01.py _header_script")
 
     try:
-        h = sp.SpacePacketHeader(sp.PacketType(typ), apid, cnt, dl, bool(shf), sp.SequenceFlags(fl), ver)
-        got = bytes(h.pack())
+        h = _mk_header(sp, f)
+        out = h.pack()
+        got = bytes(out)
     except Exception as e:
         return bad("encode/SpacePacketHeader.pack/exception", repr(e), ref)
     if got != ref:
         return bad("encode/SpacePacketHeader.pack/octets", got, ref)
+    keep.hold("SpacePacketHeader()", h, hdr_obs, case)
+    keep.hold("SpacePacketHeader.pack", out, buf_obs, case)
     try:
         u = sp.SpacePacketHeader.unpack(ref + b"\xab")
     except Exception as e:
@@ -77,16 +177,43 @@ def check_header(rec: Rec, w0, w1, w2, nontrivial=True):
     exp = (ver, typ, shf, apid, fl, cnt, dl, dl + 7, 6)
     if obs != exp:
         return bad("decode/SpacePacketHeader.unpack/fields", obs, exp)
+    keep.hold("SpacePacketHeader.unpack", u, hdr_obs, case)
+    # "any octet string of length >= 6": exactly six octets, and a mutable buffer with a longer tail that the
+    # caller reuses afterwards (the decoded header is a value, not a view of the caller's buffer)
+    try:
+        u6 = sp.SpacePacketHeader.unpack(ref)
+        buf = bytearray(ref) + bytes([w1 & 0xFF, w0 & 0xFF]) * 5
+        ub = sp.SpacePacketHeader.unpack(buf)
+        for i in range(len(buf)):
+            buf[i] ^= 0xFF
+    except Exception as e:
+        return bad("decode/SpacePacketHeader.unpack/exception-on-other-input-form", repr(e), None)
+    if hdr_obs(u6) != hdr_exp(f):
+        bad("decode/SpacePacketHeader.unpack/fields-from-exactly-6-octets", hdr_obs(u6), hdr_exp(f))
+    if hdr_obs(ub) != hdr_exp(f):
+        bad("decode/SpacePacketHeader.unpack/fields-from-bytearray-reused-by-caller", hdr_obs(ub), hdr_exp(f))
     if (h.packet_len, h.header_len) != (dl + 7, 6):
         bad("length/SpacePacketHeader.packet_len", (h.packet_len, h.header_len), (dl + 7, 6))
-    if bytes(u.pack()) != ref:
-        bad("inverse/unpack-then-pack", bytes(u.pack()), ref)
+    uout = u.pack()
+    if bytes(uout) != ref:
+        bad("inverse/unpack-then-pack", bytes(uout), ref)
+    keep.hold("SpacePacketHeader.unpack.pack", uout, buf_obs, case)
     if not (u == h and h == u):
         bad("inverse/pack-then-unpack-not-equal", None, None)
+    # "=" must discriminate: the previous case of the enumeration has other words
+    if ctx.prev is not None:
+        ph, pw = ctx.prev
+        try:
+            same = bool(h == ph) or bool(ph == h)
+        except Exception as e:  # noqa: BLE001
+            same = repr(e)
+        if same is not (pw == (w0, w1, w2)):
+            bad("inverse/equality-does-not-discriminate", same, pw == (w0, w1, w2))
+    ctx.prev = (h, (w0, w1, w2))
     pid, psc = w0 & 0x1FFF, w1
     if h.packet_id.raw() != pid or u.packet_id.raw() != pid:
         bad("words/PacketId.raw", h.packet_id.raw(), pid)
-    if h.packet_seq_control.raw() != psc:
+    if h.packet_seq_control.raw() != psc or u.packet_seq_control.raw() != psc:
         bad("words/PacketSeqCtrl.raw", h.packet_seq_control.raw(), psc)
     p = sp.PacketId.from_raw(pid)
     if (int(p.ptype), int(p.sec_header_flag), p.apid) != (typ, shf, apid) or p.raw() != pid or p != h.packet_id:
@@ -94,6 +221,8 @@ def check_header(rec: Rec, w0, w1, w2, nontrivial=True):
     q = sp.PacketSeqCtrl.from_raw(psc)
     if (int(q.seq_flags), q.seq_count) != (fl, cnt) or q.raw() != psc or q != h.packet_seq_control:
         bad("words/PacketSeqCtrl.from_raw", (int(q.seq_flags), q.seq_count), (fl, cnt))
+    keep.hold("PacketId.from_raw", p, pid_obs, case)
+    keep.hold("PacketSeqCtrl.from_raw", q, psc_obs, case)
     # 16-bit inputs with junk above the word must not disturb from_raw (13-bit word inside a 16-bit one)
     p2 = sp.PacketId.from_raw(w0)
     if p2.raw() != pid:
@@ -101,6 +230,7 @@ def check_header(rec: Rec, w0, w1, w2, nontrivial=True):
     c = sp.SpacePacketHeader.from_composite_fields(p, q, dl, ver)
     if bytes(c.pack()) != ref:
         bad("encode/from_composite_fields", bytes(c.pack()), ref)
+    keep.hold("SpacePacketHeader.from_composite_fields", c, hdr_obs, case)
     if tuple(sp.get_space_packet_id_bytes(sp.PacketType(typ), bool(shf), apid, ver)) != (ref[0], ref[1]):
         bad("helpers/get_space_packet_id_bytes", tuple(sp.get_space_packet_id_bytes(sp.PacketType(typ), bool(shf), apid, ver)), (ref[0], ref[1]))
     if sp.get_apid_from_raw_space_packet(ref) != apid:
@@ -110,47 +240,123 @@ def check_header(rec: Rec, w0, w1, w2, nontrivial=True):
     if sp.get_total_space_packet_len_from_len_field(dl) != dl + 7:
         bad("helpers/get_total_space_packet_len_from_len_field", sp.get_total_space_packet_len_from_len_field(dl), dl + 7)
     # SpacePacket.pack(): header || secondary header || user data, nothing else
-    if (w2 & 0xFF) < 4:  # a few payload shapes per header, keyed on the low length bits so that every word value meets each
+    if (w2 & 0xFF) < 4 or deep:  # a few payload shapes per header, keyed on the low length bits so that every word value meets each
         sec = bytes([w0 & 0xFF]) * ((w2 & 3)) if shf else None
         usr = bytes([w1 & 0xFF, w1 >> 8]) if (not shf or (w2 & 1)) else None
         pkt = sp.SpacePacket(h, sec, usr)
         try:
-            raw = bytes(pkt.pack())
+            praw = pkt.pack()
             exp_raw = ref + (sec or b"") + (usr or b"")
-            if raw != exp_raw:
-                bad("encode/SpacePacket.pack", raw, exp_raw)
+            if bytes(praw) != exp_raw:
+                bad("encode/SpacePacket.pack", bytes(praw), exp_raw)
+            keep.hold("SpacePacket.pack", praw, buf_obs, case)
+            # the packet's pack() appended to what the header's pack() returned: the header still encodes as before
+            if bytes(h.pack()) != ref:
+                bad("encode/SpacePacketHeader.pack/octets-after-SpacePacket.pack", bytes(h.pack()), ref)
         except Exception as e:
             bad("encode/SpacePacket.pack/exception", repr(e), None)
+    if deep:
+        _siblings(sp, bad, f)
 
 
-CTORS = {
-    "apid": [
-        ("SpacePacketHeader", lambda sp, v: sp.SpacePacketHeader(sp.PacketType.TM, v, 0, 0).pack()),
-        ("SpacePacketHeader(TC,shf)", lambda sp, v: sp.SpacePacketHeader(sp.PacketType.TC, v, 0x3FFF, 0xFFFF, True).pack()),
-        ("PacketId", lambda sp, v: sp.PacketId(sp.PacketType.TM, False, v).raw()),
-        ("get_sp_packet_id_raw", lambda sp, v: sp.get_sp_packet_id_raw(sp.PacketType.TC, True, v)),
-    ],
-    "seq_count": [
-        ("SpacePacketHeader", lambda sp, v: sp.SpacePacketHeader(sp.PacketType.TM, 0, v, 0).pack()),
-        ("PacketSeqCtrl", lambda sp, v: sp.PacketSeqCtrl(sp.SequenceFlags.UNSEGMENTED, v).raw()),
-        ("PacketSeqCtrl(CONT)", lambda sp, v: sp.PacketSeqCtrl(sp.SequenceFlags.CONTINUATION_SEGMENT, v).raw()),
-        ("get_sp_psc_raw", lambda sp, v: sp.get_sp_psc_raw(sp.SequenceFlags.FIRST_SEGMENT, v)),
-    ],
-    "data_len": [
-        ("SpacePacketHeader", lambda sp, v: sp.SpacePacketHeader(sp.PacketType.TM, 0, 0, v).pack()),
-        ("from_composite_fields", lambda sp, v: sp.SpacePacketHeader.from_composite_fields(sp.PacketId(sp.PacketType.TC, True, 0x7FF), sp.PacketSeqCtrl(sp.SequenceFlags.UNSEGMENTED, 0x3FFF), v).pack()),
-    ],
-}
+def _siblings(sp, bad, f):
+    """Same-valued results must be independent objects as far as their values go: make a, make b, assign every
+    attribute of b, make c - a and c still carry the reference values (flyweight / memoised constructors and
+    decoders, shared templates)."""
+    ver, typ, shf, apid, fl, cnt, dl = f
+    ref = R.sp_header(*f)
+    pid, psc = (typ << 12 | shf << 11 | apid), (fl << 14 | cnt)
+    hexp, pexp, qexp = hdr_exp(f), (typ, shf, apid, pid), (fl, cnt, psc)
+    makers = [
+        ("SpacePacketHeader()", lambda: _mk_header(sp, f), hdr_obs, hexp, _mutate_header),
+        ("SpacePacketHeader.unpack", lambda: sp.SpacePacketHeader.unpack(ref), hdr_obs, hexp, _mutate_header),
+        ("SpacePacketHeader.from_composite_fields",
+         lambda: sp.SpacePacketHeader.from_composite_fields(sp.PacketId.from_raw(pid), sp.PacketSeqCtrl.from_raw(psc), dl, ver), hdr_obs, hexp, _mutate_header),
+        ("PacketId()", lambda: sp.PacketId(sp.PacketType(typ), bool(shf), apid), pid_obs, pexp, _mutate_pid),
+        ("PacketId.from_raw", lambda: sp.PacketId.from_raw(pid), pid_obs, pexp, _mutate_pid),
+        ("PacketSeqCtrl()", lambda: sp.PacketSeqCtrl(sp.SequenceFlags(fl), cnt), psc_obs, qexp, _mutate_psc),
+        ("PacketSeqCtrl.from_raw", lambda: sp.PacketSeqCtrl.from_raw(psc), psc_obs, qexp, _mutate_psc),
+        ("PacketId.empty", sp.PacketId.empty, pid_obs, (0, 0, 0, 0), lambda s, o, _f: _mutate_pid(s, o, (0,) * 7)),
+        ("PacketSeqCtrl.empty", sp.PacketSeqCtrl.empty, psc_obs, (0, 0, 0), lambda s, o, _f: _mutate_psc(s, o, (0,) * 7)),
+    ]
+    for name, make, obs, exp, mutate in makers:
+        try:
+            a = make()
+            b = make()
+            mutate(sp, b, f)
+            c = make()
+            oa, oc = obs(a), obs(c)
+        except Exception as e:  # noqa: BLE001
+            bad(f"independence/{name}/exception-in-make-mutate-make", repr(e), None)
+            continue
+        if oa != exp:
+            bad(f"independence/{name}/earlier-result-changed-by-assigning-to-a-same-valued-one", oa, exp)
+        if oc != exp:
+            bad(f"independence/{name}/later-result-wrong-after-assigning-to-a-same-valued-one", oc, exp)
+    # from_composite_fields takes the VALUES of the two words: the header and the words stay independent
+    p, q = sp.PacketId.from_raw(pid), sp.PacketSeqCtrl.from_raw(psc)
+    c = sp.SpacePacketHeader.from_composite_fields(p, q, dl, ver)
+    _mutate_header(sp, c, f)
+    if pid_obs(p) != pexp or psc_obs(q) != qexp:
+        bad("independence/from_composite_fields/argument-words-changed-by-assigning-to-the-header", (pid_obs(p), psc_obs(q)), (pexp, qexp))
+
+
+# -------------------------------------------------------------------------------------------------- refusal clause
 MAXV = {"apid": 2047, "seq_count": 16383, "data_len": 65535}
+LO = {"typ": 0, "shf": 0, "apid": 0, "fl": 3, "cnt": 0, "dl": 0, "ver": 0}
+HI = {"typ": 1, "shf": 1, "apid": 0x7FF, "fl": 0, "cnt": 0x3FFF, "dl": 0xFFFF, "ver": 7}
 
 
-def check_range(rec: Rec, field, ctor_name, v):
+def _ctx(bg, **kw):
+    d = dict(LO if bg == "lo" else HI)
+    d.update(kw)
+    return d
+
+
+def range_ctors(field):
+    """[(constructor name, context dict)] - every constructor taking the field x every context of its other arguments"""
+    out = []
+    ts = [(t, s) for t in (0, 1) for s in (0, 1)]
+    if field == "apid":
+        out += [("SpacePacketHeader", _ctx(bg, typ=t, shf=s)) for bg in ("lo", "hi") for t, s in ts]
+        out += [("PacketId", {"typ": t, "shf": s}) for t, s in ts]
+        out += [("get_sp_packet_id_raw", {"typ": t, "shf": s}) for t, s in ts]
+    elif field == "seq_count":
+        out += [("SpacePacketHeader", _ctx(bg, fl=x)) for bg in ("lo", "hi") for x in range(4)]
+        out += [("PacketSeqCtrl", {"fl": x}) for x in range(4)]
+        out += [("get_sp_psc_raw", {"fl": x}) for x in range(4)]
+    elif field == "data_len":
+        out += [("SpacePacketHeader", _ctx(bg, typ=t, shf=s)) for bg in ("lo", "hi") for t, s in ts]
+        out += [("from_composite_fields", _ctx(bg, typ=t, shf=s)) for bg in ("lo", "hi") for t, s in ts]
+    return out
+
+
+def _range_call(sp, field, ctor, c, v):
+    key = {"apid": "apid", "seq_count": "cnt", "data_len": "dl"}[field]
+    c = dict(c)
+    c[key] = v
+    if ctor == "SpacePacketHeader":
+        return sp.SpacePacketHeader(sp.PacketType(c["typ"]), c["apid"], c["cnt"], c["dl"], bool(c["shf"]), sp.SequenceFlags(c["fl"]), c["ver"]).pack()
+    if ctor == "from_composite_fields":
+        return sp.SpacePacketHeader.from_composite_fields(
+            sp.PacketId(sp.PacketType(c["typ"]), bool(c["shf"]), c["apid"]), sp.PacketSeqCtrl(sp.SequenceFlags(c["fl"]), c["cnt"]), c["dl"], c["ver"]).pack()
+    if ctor == "PacketId":
+        return sp.PacketId(sp.PacketType(c["typ"]), bool(c["shf"]), c["apid"]).raw()
+    if ctor == "get_sp_packet_id_raw":
+        return sp.get_sp_packet_id_raw(sp.PacketType(c["typ"]), bool(c["shf"]), c["apid"])
+    if ctor == "PacketSeqCtrl":
+        return sp.PacketSeqCtrl(sp.SequenceFlags(c["fl"]), c["cnt"]).raw()
+    if ctor == "get_sp_psc_raw":
+        return sp.get_sp_psc_raw(sp.SequenceFlags(c["fl"]), c["cnt"])
+    raise KeyError(ctor)
+
+
+def check_range(rec: Rec, field, ctor_name, c, v):
     sp = _sp()
-    fn = dict(CTORS[field])[ctor_name]
-    case = {"kind": "range", "field": field, "ctor": ctor_name, "v": str(v)}
+    case = {"kind": "range", "field": field, "ctor": ctor_name, "ctx": c, "v": str(v)}
     rec.case(True, ops=1)
     try:
-        r = fn(sp, v)
+        r = _range_call(sp, field, ctor_name, c, v)
     except ValueError:
         return
     except Exception as e:
@@ -159,10 +365,196 @@ def check_range(rec: Rec, field, ctor_name, v):
     rec.violation(f"C01.refuse/{field}/{ctor_name}/accepted", case, r, "ValueError")
 
 
+# ------------------------------------------------------------------------------------------------------ histories
+BASES = [  # (ver, typ, shf, apid, fl, cnt, dl): no value below is a menu value, so every assignment changes the header
+    (0, 0, 0, 0x001, 3, 0x0001, 0x0001),
+    (7, 1, 1, 0x7FE, 0, 0x3FFE, 0xFFFE),
+    (5, 1, 0, 0x555, 2, 0x2AAA, 0xAAAA),
+]
+STARTS = ["constructed", "unpacked", "unpacked-from-reused-bytearray", "from_composite_fields"]
+VALS = {
+    "quick": {"apid": [0, 0x7FF, 0x2AA], "cnt": [0, 0x3FFF, 0x1555], "dl": [0, 0xFFFF, 0x5555]},
+    "thorough": {"apid": [0, 0x7FF, 0x2AA, 0x400], "cnt": [0, 0x3FFF, 0x1555, 0x2000], "dl": [0, 0xFFFF, 0x5555, 0x8000]},
+}
+OBSERVERS = ["pack", "packet_len", "eq", "packet_id.raw", "packet_seq_control.raw", "SpacePacket.pack", "repr"]
+IDX = {"typ": 1, "shf": 2, "apid": 3, "fl": 4, "cnt": 5, "dl": 6}
+SETTERS = {"packet_type": "typ", "sec_header_flag": "shf", "apid": "apid", "seq_flags": "fl", "seq_count": "cnt", "data_len": "dl"}
+SUBSETTERS = {
+    "packet_id.ptype": "typ", "packet_id.sec_header_flag": "shf", "packet_id.apid": "apid",
+    "packet_seq_control.seq_flags": "fl", "packet_seq_control.seq_count": "cnt",
+}
+
+
+def menu(tier):
+    v = dict(VALS[tier], typ=[0, 1], shf=[0, 1], fl=[0, 1, 2, 3])
+    m = [["obs", o] for o in OBSERVERS]
+    for attr, key in SETTERS.items():
+        m += [["set", attr, x] for x in v[key]]
+    for attr, key in SUBSETTERS.items():
+        m += [["sub", attr, x] for x in v[key]]
+    return m
+
+
+def _conv(sp, key, x):
+    if key == "typ":
+        return sp.PacketType(x)
+    if key == "shf":
+        return bool(x)
+    if key == "fl":
+        return sp.SequenceFlags(x)
+    return x
+
+
+def _getter(h, key):
+    return {"typ": lambda: int(h.packet_type), "shf": lambda: int(h.sec_header_flag), "apid": lambda: h.apid,
+            "fl": lambda: int(h.seq_flags), "cnt": lambda: h.seq_count, "dl": lambda: h.data_len}[key]()
+
+
+def _start(sp, start, f):
+    """-> (subject, extra results to hold [(subject name, obj, observe)])"""
+    ver, typ, shf, apid, fl, cnt, dl = f
+    ref = R.sp_header(*f)
+    if start == "constructed":
+        return _mk_header(sp, f), []
+    if start == "unpacked":
+        return sp.SpacePacketHeader.unpack(ref + b"\xab\xcd"), []
+    if start == "unpacked-from-reused-bytearray":
+        buf = bytearray(ref + b"\xab\xcd")
+        h = sp.SpacePacketHeader.unpack(buf)
+        for i in range(len(buf)):
+            buf[i] ^= 0xFF
+        return h, []
+    if start == "from_composite_fields":
+        p = sp.PacketId.from_raw(typ << 12 | shf << 11 | apid)
+        q = sp.PacketSeqCtrl.from_raw(fl << 14 | cnt)
+        return sp.SpacePacketHeader.from_composite_fields(p, q, dl, ver), [("PacketId.from_raw", p, pid_obs), ("PacketSeqCtrl.from_raw", q, psc_obs)]
+    raise KeyError(start)
+
+
+def run_history(rec: Rec, keeper, start, base, events):
+    sp = _sp()
+    f0 = tuple(BASES[base])
+    case = {"kind": "hist", "start": start, "base": base, "events": events}
+    rec.case(True, ops=len(events) + 6)
+
+    def bad(what, kind, observed, expected):
+        rec.violation(f"C01.history/{what}/{kind}/start={start}", case, observed, expected,
+                      note="model (ver,typ,shf,apid,flags,count,len) at the failing observation: %r" % (tuple(m),))
+
+    # bystander made the same way from the same values before the subject is touched
+    twin, _ = _start(sp, start, f0)
+    keeper.hold(f"history-bystander/{start}", twin, hdr_obs, case)
+    h, extra = _start(sp, start, f0)
+    for name, obj, obs in extra:
+        keeper.hold(f"history-argument/{name}", obj, obs, case)
+    m = list(f0)
+    for ev in events:
+        if ev[0] == "set":
+            key = SETTERS[ev[1]]
+            setattr(h, ev[1], _conv(sp, key, ev[2]))
+            m[IDX[key]] = ev[2]
+        elif ev[0] == "sub":
+            key = SUBSETTERS[ev[1]]
+            word, attr = ev[1].split(".")
+            setattr(getattr(h, word), attr, _conv(sp, key, ev[2]))
+            # the header's own getter says whether the word handed out is the live one (it is on this tree)
+            m[IDX[key]] = _getter(h, key)
+        else:
+            ver, typ, shf, apid, fl, cnt, dl = m
+            ref = R.sp_header(*m)
+            o = ev[1]
+            if o == "pack":
+                r = h.pack()
+                if bytes(r) != ref:
+                    bad("SpacePacketHeader.pack", "octets-mid-history", bytes(r), ref)
+                keeper.hold("history/SpacePacketHeader.pack", r, buf_obs, case)
+            elif o == "packet_len":
+                if h.packet_len != dl + 7:
+                    bad("SpacePacketHeader.packet_len", "value-mid-history", h.packet_len, dl + 7)
+            elif o == "eq":
+                if not (h == _mk_header(sp, m)):
+                    bad("SpacePacketHeader.__eq__", "not-equal-to-fresh-header-of-same-values-mid-history", False, True)
+            elif o == "packet_id.raw":
+                if h.packet_id.raw() != (typ << 12 | shf << 11 | apid):
+                    bad("PacketId.raw", "value-mid-history", h.packet_id.raw(), typ << 12 | shf << 11 | apid)
+            elif o == "packet_seq_control.raw":
+                if h.packet_seq_control.raw() != (fl << 14 | cnt):
+                    bad("PacketSeqCtrl.raw", "value-mid-history", h.packet_seq_control.raw(), fl << 14 | cnt)
+            elif o == "SpacePacket.pack":
+                sec = b"\x01\x02" if shf else None
+                r = sp.SpacePacket(h, sec, b"\x03").pack()
+                if bytes(r) != ref + (sec or b"") + b"\x03":
+                    bad("SpacePacket.pack", "octets-mid-history", bytes(r), ref + (sec or b"") + b"\x03")
+                keeper.hold("history/SpacePacket.pack", r, buf_obs, case)
+            elif o == "repr":
+                repr(h)
+    # final observation: getters first, then the encoders (a history ending in an observer event has them the other way round)
+    ver, typ, shf, apid, fl, cnt, dl = m
+    ref = R.sp_header(*m)
+    got = (h.ccsds_version, int(h.packet_type), int(h.sec_header_flag), h.apid, int(h.seq_flags), h.seq_count, h.data_len)
+    if got != tuple(m):
+        bad("SpacePacketHeader.fields", "values", got, tuple(m))
+    if (h.packet_len, h.header_len) != (dl + 7, 6):
+        bad("SpacePacketHeader.packet_len", "value", (h.packet_len, h.header_len), (dl + 7, 6))
+    words = (h.packet_id.raw(), h.packet_seq_control.raw())
+    if words != (typ << 12 | shf << 11 | apid, fl << 14 | cnt):
+        bad("PacketId.raw+PacketSeqCtrl.raw", "values", words, (typ << 12 | shf << 11 | apid, fl << 14 | cnt))
+    out = h.pack()
+    if bytes(out) != ref:
+        bad("SpacePacketHeader.pack", "octets", bytes(out), ref)
+    else:
+        back = sp.SpacePacketHeader.unpack(bytes(out))
+        if not (back == h and h == back):
+            bad("SpacePacketHeader.__eq__", "decode-of-encode-not-equal", False, True)
+    fresh = _mk_header(sp, m)
+    if not (h == fresh and fresh == h):
+        bad("SpacePacketHeader.__eq__", "not-equal-to-fresh-header-of-same-values", False, True)
+    same = bool(h == twin) or bool(twin == h)
+    if same is not (tuple(m) == f0):
+        bad("SpacePacketHeader.__eq__", "does-not-discriminate", same, tuple(m) == f0)
+    keeper.hold("history/SpacePacketHeader.pack", out, buf_obs, case)
+    keeper.hold(f"history-subject-at-rest/{start}", h, hdr_obs, case)
+    keeper.recheck(case)
+    rec.outcome(ref.hex())
+
+
+def hist_sequences(m, depth, lo, hi):
+    """every event sequence of length 1..depth whose first event has index in [lo,hi), shortest first
+    (the empty history belongs to the part that starts at 0)"""
+    if lo == 0:
+        yield []
+    for length in range(1, depth + 1):
+        for first in range(lo, hi):
+            for rest in itertools.product(m, repeat=length - 1):
+                yield [m[first], *rest]
+
+
+# --------------------------------------------------------------------------------------------------------- shards
+def shards(tier):
+    items = []
+    parts = 8 if tier == "quick" else 16
+    for word in range(3):
+        for part in range(parts):
+            items.append({"kind": "sweep", "word": word, "part": part, "parts": parts, "k": _k(tier)})
+    for ver in range(8):
+        items.append({"kind": "edge", "k": _k(tier), "ver": ver})
+    for field in ("apid", "seq_count", "data_len"):
+        items.append({"kind": "range", "field": field, "n": _n(tier)})
+    n = len(menu(tier))
+    depth = 3 if tier == "quick" else 4
+    cuts = [0, n // 2, n] if tier == "quick" else list(range(n + 1))
+    for start in STARTS:
+        for base in range(len(BASES)):
+            for lo, hi in zip(cuts, cuts[1:]):
+                items.append({"kind": "hist", "tier": tier, "start": start, "base": base, "first": [lo, hi], "depth": depth})
+    return items
+
+
 def run_shard(item):
     rec = Rec(PROPERTY, item)
     kind = item["kind"]
     if kind == "sweep":
+        ctx = Ctx(rec)
         word = item["word"]
         bg = D.backgrounds(16, item["k"])
         bgset = set(bg)
@@ -174,40 +566,74 @@ def run_shard(item):
                     w = [a, b]
                     w.insert(word, v)
                     dup = word > 0 and v in bgset
-                    check_header(rec, w[0], w[1], w[2], nontrivial=not dup)
+                    check_header(rec, w[0], w[1], w[2], nontrivial=not dup, ctx=ctx)
+        ctx.keeper.flush()
         rec.count(f"word{word}_values_swept", hi - lo)
         rec.sample({"sweep_word": word, "value": lo, "backgrounds": bg})
     elif kind == "edge":
+        ctx = Ctx(rec)
         bgset = set(D.backgrounds(16, item["k"]))
         n = 0
-        for ver, typ, shf, apid, fl, cnt, dl in itertools.product(D.full(3), (0, 1), (0, 1), D.edge(11), D.full(2), D.edge(14), D.edge(16)):
+        ver = item["ver"]
+        for typ, shf, apid, fl, cnt, dl in itertools.product((0, 1), (0, 1), D.edge(11), D.full(2), D.edge(14), D.edge(16)):
             w0, w1, w2 = (ver << 13 | typ << 12 | shf << 11 | apid), (fl << 14 | cnt), dl
             dup = sum(1 for w in (w0, w1, w2) if w in bgset) >= 2
-            check_header(rec, w0, w1, w2, nontrivial=not dup)
+            check_header(rec, w0, w1, w2, nontrivial=not dup, ctx=ctx, deep=True)
             n += 1
+        ctx.keeper.flush()
         rec.count("edge_product_headers", n)
-        rec.sample({"edge_product": "full(ver) x type x shf x edge(apid) x full(flags) x edge(count) x edge(len)", "size": n})
+        rec.count("sibling_mutation_scripts", n)
+        rec.sample({"edge_product": "full(ver) x type x shf x edge(apid) x full(flags) x edge(count) x edge(len)", "ver": ver, "size": n})
     elif kind == "range":
         field = item["field"]
         vals = D.out_of_range(MAXV[field], item["n"])
-        for name, _ in CTORS[field]:
+        ctors = range_ctors(field)
+        for name, c in ctors:
             for v in vals:
-                check_range(rec, field, name, v)
-        rec.count(f"out_of_range_{field}", len(vals) * len(CTORS[field]))
-        rec.sample({"refuse": field, "first": vals[:3], "count": len(vals)})
-    rec.outcomes = set()
+                check_range(rec, field, name, c, v)
+        rec.count(f"out_of_range_{field}", len(vals) * len(ctors))
+        rec.count(f"out_of_range_{field}_constructor_contexts", len(ctors))
+        rec.sample({"refuse": field, "first": vals[:3], "count": len(vals), "constructor_contexts": len(ctors)})
+    elif kind == "hist":
+        keeper = Keeper(rec, PROPERTY, depth=16)
+        m = menu(item["tier"])
+        lo, hi = item["first"]
+        n = nev = 0
+        for events in hist_sequences(m, item["depth"], lo, hi):
+            run_history(rec, keeper, item["start"], item["base"], events)
+            n += 1
+            nev += len(events)
+        keeper.flush()
+        rec.count("histories", n)
+        rec.count("history_events", nev)
+        rec.count(f"histories_from_{item['start']}", n)
+        rec.extra = {"history_depth": item["depth"], "menu": len(m)}
+        rec.sample({"history": {"start": item["start"], "base": list(BASES[item["base"]]), "first_events": m[lo:hi][:3], "depth": item["depth"]}})
+    outcomes = rec.outcomes if kind == "hist" else set()
+    rec.outcomes = outcomes
     return rec.result()
 
 
 def replay(case):
     rec = Rec(PROPERTY, "replay")
     if case["kind"] == "hdr":
-        check_header(rec, *case["w"])
+        ctx = Ctx(rec)
+        check_header(rec, *case["w"], ctx=ctx, deep=case.get("deep", False))
+        ctx.end_of_case(case)
+        ctx.keeper.flush()
     elif case["kind"] == "range":
-        check_range(rec, case["field"], case["ctor"], int(case["v"]))
+        check_range(rec, case["field"], case["ctor"], case["ctx"], int(case["v"]))
+    elif case["kind"] == "hist":
+        keeper = Keeper(rec, PROPERTY, depth=16)
+        run_history(rec, keeper, case["start"], case["base"], case["events"])
+        keeper.flush()
     return rec.result()
 
 
 def finalize(tier, agg):
     c = agg["counters"]
-    return {"per_word_coverage": {f"word{i}": f"{c.get(f'word{i}_values_swept', 0)}/65536" for i in range(3)}}
+    out = {"per_word_coverage": {f"word{i}": f"{c.get(f'word{i}_values_swept', 0)}/65536" for i in range(3)}}
+    out["histories"] = {"executed": c.get("histories", 0), "menu_events": len(menu(tier)), "depth": 3 if tier == "quick" else 4,
+                        "start_kinds": STARTS, "base_headers": len(BASES)}
+    out["independence"] = {"results_held": c.get("independence_results_held", 0), "reobservations": c.get("independence_reobservations", 0)}
+    return out
